@@ -56,6 +56,10 @@ LEVEL_TEXT += (
     "the right-hand side built for an omitted b is floating; reductions "
     "of the matrix operand (max / min) follow a conversion; the "
     "expansion run follows both outcomes of the real-mode test.")
+LEVEL_TEXT += (
+    " Added in the fourth hunting round (DESIGN.md 9.6): "
+    "a helper that indexes the system matrix converts non-indexable "
+    "formats (or tests the format) first.")
 LEVEL_NOTE = (
     "Trusted: scipy.sparse indexing A[I][:, D], setdiag, numpy.setdiff1d / "
     "unique / arange / nonzero semantics. Not decided: floating-point "
